@@ -44,7 +44,7 @@ func genVac(r *rand.Rand) *VacParams {
 	p := &VacParams{MW: *mw, Late: r.IntN(2) == 0}
 	nv := 1 + r.IntN(3)
 	for i := 0; i < nv; i++ {
-		v := VacSpec{Client: r.IntN(len(mw.Scripts)), Kind: []string{"created", "created", "deleted", "deleted", "past", "future", "now"}[r.IntN(7)],
+		v := VacSpec{Client: r.IntN(len(mw.Scripts)), Kind: []string{"created", "created", "deleted", "deleted", "past", "future", "now", "far"}[r.IntN(8)],
 			Idx: r.IntN(12), Delta: []int64{0, 0, 1, -1, int64(time.Second), -int64(time.Second), int64(time.Millisecond)}[r.IntN(7)], Refresh: r.IntN(2) == 0}
 		p.Vacuums = append(p.Vacuums, v)
 	}
@@ -142,6 +142,9 @@ func runVacuum(x *Exec, prop string) {
 				return T0.Add(-24 * time.Hour)
 			case "future":
 				return time.Now().Add(1000 * time.Hour)
+			case "far":
+				// beyond what fits into 64 bits of nanoseconds since 1970 (2262-04-11)
+				return time.Date(2300+v.Idx*40, 1, 1, 0, 0, 0, 0, time.UTC)
 			}
 			return time.Now().Add(time.Duration(v.Delta))
 		}
